@@ -227,7 +227,7 @@ class Ctx:
                                  depth=res['depth'], wall_s=round(res['wall'], 1), violation=res['violation']))
         log('[tlc-mc] %s/%s: %d generated, %d distinct, depth %s, %.1fs%s' %
             (module, cfg, res['generated'], res['distinct'], res['depth'], res['wall'],
-             (' VIOLATION ' + str(res['violation'])) if res['violation'] else ''))
+             (' [spec property refuted on the model: ' + str(res['violation']) + ']') if res['violation'] else ''))
         if coverage:
             zeros = [l for l in out.splitlines() if re.search(r'^<\w+ line .*>: 0:0\s*$', l)]
             res['zero_actions'] = zeros
